@@ -1001,6 +1001,17 @@ func (e *Engine) loopEntry(st *State, fr *Frame, head, pred *ssa.BasicBlock, k c
 	}
 	e.bindLoopNames(st, fr, head)
 	e.havocLoopHeap(st, fr, head)
+	// ghost variables assigned by call-site hooks may have been assigned in an earlier iteration:
+	// at the loop head they are arbitrary (the invariants say what is known about them)
+	if fr.contract != nil {
+		for _, h := range fr.contract.Ghost {
+			for _, gs := range h.Sets {
+				if cur, ok := st.ghost["g!"+gs.Name]; ok {
+					st.ghost["g!"+gs.Name] = e.sym.Fresh("ghost!"+gs.Name, cur.Sort)
+				}
+			}
+		}
+	}
 	// map iterators advanced in the loop: the set of keys already produced is arbitrary
 	for b := range fr.loops.body[head] {
 		for _, in := range b.Instrs {
